@@ -113,3 +113,7 @@ fn c07t_str_needs_quoting_len2() { check_str_needs_quoting::<2>(); }
 #[kani::proof]
 #[kani::unwind(8)]
 fn c07t_str_needs_quoting_len3() { check_str_needs_quoting::<3>(); }
+
+// native replay of a Kani counterexample (bin/vcheck replay): the generated test is included here
+#[cfg(verif_playback)]
+include!("/verif/work/k/playback/quote_quote_harness.rs");
